@@ -991,3 +991,15 @@ func c09Between(before, db, after string) bool {
 	}
 	return true
 }
+
+// c09Where strips run specific detail (cursor numbers, goal texts) from a location for use in a signature.
+func c09Where(s string) string {
+	var out []string
+	for _, w := range strings.Fields(s) {
+		if strings.ContainsAny(w, "0123456789") {
+			continue
+		}
+		out = append(out, strings.Trim(w, "()"))
+	}
+	return strings.Join(out, "-")
+}
